@@ -282,7 +282,7 @@ CLAIMED = {
              "PointCloud or mesh, moved rigidly; option combinations (normal=, ordered, angle_digits).",
         note="Trusted: Lean kernel (+propext/Classical.choice/Quot.sound); qhull / scipy are certified per output, "
              "not modelled; the certificate search (nnls) and the enumeration of support sets used to separate "
-             "'not minimal' from 'certificate not found' are harness code; 2D oriented bounds are not covered. "
+             "'not minimal' from 'certificate not found' are harness code; 2D oriented bounds are judged by a Python oracle only (no theorem). "
              "Known finding: minimum_nsphere is not minimal when the minimum ball has 2 or 3 support points.",
         technique="Lean 4 proof (verified result checkers = translation validation of each output) + differential run"),
     "C20": dict(
